@@ -45,6 +45,7 @@ def run(ck, fb):
     r05h(ck, fb)
     r05i(ck, fb)
     r05j(ck, fb)
+    r05k(ck, fb)
     ck.borrow('rules.c08', {'R08b': 'R05f'}, 'membership/addresses of an installed snapshot reach the index file')
 
 
@@ -448,3 +449,57 @@ def r05j(ck, fb, R='R05j'):
                    % (fn, bad[0][1] if bad else '', ', '.join(sorted(fields)) or 'node address'),
                    '%d success answers outside write_index' % len(oks))
     ck.floor(R, 'catalogue writers', n, 6)
+
+
+def r05k(ck, fb, R='R05k'):
+    ck.rule(R, 'a local compaction never writes membership: the header of a snapshot this node builds holds the member list and addresses read when '
+               'the build began; saving them at the end (SaveMember) would undo every membership / address save acknowledged meanwhile. From the '
+               'CompleteSnapshot arm of RaftSnapshotManager no send of RaftIndexRequest::SaveMember is reachable once constant flag arguments are '
+               'propagated through calls and captured variables; from the InstallSnapshot arm (the leader\'s snapshot: its header is newer than what '
+               'the node holds) one is')
+    from rn import ipconst
+    SM = 'rnacos::raft::filestore::raftsnapshot::RaftSnapshotManager'
+    H = '<%s as actix::Handler<rnacos::raft::filestore::raftsnapshot::RaftSnapshotRequest>>::handle' % SM
+    h = ck.body(H, R)
+    if not h:
+        return
+    h = util.body_with_call(fb, h, re.escape(SM + '::complete_snapshot') + '$')
+    targets = set()
+    for b in fb.bodies.values():
+        if 'raftsnapshot' not in b.name:
+            continue
+        for (s0, m0, v0, a0) in util.sends(b, r'RaftIndexRequest$', 'SaveMember'):
+            targets.add((b.name, s0.bb))
+    ck.floor(R, 'SaveMember sends in the snapshot manager', len(targets), 1)
+
+    def pred(b, s):
+        return (b.name, s.bb) in targets
+
+    def from_arm(variant):
+        found = None
+        n = 0
+        for s in h.sites:
+            if not s.callee or not any(v == variant for (_, v) in util.variant_guards(h, s.bb)):
+                continue
+            callee = fb.bodies.get(s.resolved or s.callee)
+            if callee is None or callee.parent:
+                continue
+            n += 1
+            k2 = {}
+            for idx, op in enumerate(s.args):
+                v = ipconst._value_of_op(h, op, {})
+                if v is not None:
+                    k2[('arg', idx + 1)] = v
+            r = ipconst.reach_target(fb, callee, k2, pred)
+            if r and not found:
+                found = [(h.name, s)] + r
+        return n, found
+    n1, p1 = from_arm('CompleteSnapshot')
+    ck.require(n1 >= 1, R, 'CompleteSnapshot:arm', h.where(), 'the CompleteSnapshot arm calls nothing: anchor lost')
+    ck.require(p1 is None, R, 'CompleteSnapshot:no-SaveMember', (p1[-1][1].where() if p1 else h.where()),
+               'finishing a locally built snapshot sends SaveMember with the membership / addresses of the snapshot header (path: %s): a node '
+               'address or member change acknowledged while the snapshot was being built is overwritten in memory and in the index file'
+               % (' -> '.join(x[0].split('::')[-1] for x in p1) if p1 else ''), 'not reachable under the constant flags')
+    n2, p2 = from_arm('InstallSnapshot')
+    ck.require(p2 is not None, R, 'InstallSnapshot:SaveMember', h.where(),
+               'the install path no longer reaches SaveMember (membership of the leader\'s snapshot is not saved), or the matcher lost its anchor')
